@@ -3,7 +3,9 @@ package scen
 import (
 	res "github.com/jirenius/go-res"
 	"github.com/jirenius/go-res/logger"
+	"strings"
 	"time"
+	"verif/envnats"
 
 	"fmt"
 
@@ -137,6 +139,48 @@ func init() {
 		}, sp
 	}})
 
+	// Q9 backlog: one group has a long backlog (36 callbacks queued behind a gate) while another group waits for
+	// the worker; while the backlog drains a further callback is submitted to the busy group.
+	reg(&Scenario{Name: "Q9", Make: func(cfg Cfg) (func(), *Spec) {
+		const n = 36
+		sp := &Spec{Closes: -1, MustRun: []string{"G", "V1", "X"}}
+		for i := 1; i <= n; i++ {
+			sp.MustRun = append(sp.MustRun, fmt.Sprintf("B%02d", i))
+			if i > 1 && cfg.Group != "parallel" {
+				sp.Order = append(sp.Order, [2]string{fmt.Sprintf("B%02d", i-1), fmt.Sprintf("B%02d", i)})
+			}
+		}
+		if cfg.Group != "parallel" {
+			sp.Order = append(sp.Order, [2]string{fmt.Sprintf("B%02d", n), "X"})
+		}
+		return func() {
+			w := NewWorld(cfg)
+			sdone := make(chan struct{}, 1)
+			w.StartServe(sdone)
+			gate := make(chan struct{}, 1)
+			entered := make(chan struct{}, 1)
+			vsched.Note(Mon, "submit G")
+			w.S.WithGroup("free", func(*res.Service) {
+				vsched.Emit(Mon, "enter G g=free want=free")
+				vsched.Send(entered, struct{}{})
+				vsched.Recv(gate)
+				vsched.Emit(Mon, "exit G")
+			})
+			vsched.Note(Mon, "ret G ok")
+			vsched.Recv(entered)
+			for i := 1; i <= n; i++ {
+				w.With(fmt.Sprintf("B%02d", i), w.A("1"))
+			}
+			w.With("V1", w.A("2"))
+			done := make(chan struct{}, 2)
+			spawn("U", done, func() { vsched.Send(gate, struct{}{}) })
+			spawn("P", done, func() { w.With("X", w.A("1")) })
+			join(done, 2)
+			vsched.AwaitQuiescence()
+			vsched.Emit(Mon, "quiesced")
+		}, sp
+	}})
+
 	// Q2 idle->busy: a group drains completely, then is hit again by P and N concurrently.
 	reg(&Scenario{Name: "Q2", Make: func(cfg Cfg) (func(), *Spec) {
 		sp := &Spec{MustRun: []string{"W0", "R1", "W1"}, Closes: -1, Order: [][2]string{{"W0", "R1"}, {"W0", "W1"}}}
@@ -237,6 +281,27 @@ func init() {
 				// a delivery may stay blocked forever once the service stopped reading: not joined
 				w.Req("get."+w.A("1"), "R1")
 				w.Req("get.t.b", "R2")
+			})
+			spawn("X", done, func() { shutdown(w) })
+			join(done, 1)
+			vsched.Recv(sdone)
+			vsched.AwaitQuiescence()
+		}, sp
+	}})
+
+	// S2u: Shutdown against deliveries for resources nobody handles (answered with system.notFound) and for a
+	// resource with handlers but no matching method.
+	reg(&Scenario{Name: "S2u", Make: func(cfg Cfg) (func(), *Spec) {
+		sp := &Spec{Shutdown: true, Closes: 1}
+		return func() {
+			w := NewWorld(cfg)
+			sdone := make(chan struct{}, 1)
+			w.StartServe(sdone)
+			done := make(chan struct{}, 4)
+			vsched.Go("N", func() {
+				w.Req("get.t.unknown", "R1")
+				w.Req("call.t.b.nomethod", "R2")
+				w.Req("get.t.unknown.too", "R3")
 			})
 			spawn("X", done, func() { shutdown(w) })
 			join(done, 1)
@@ -542,6 +607,84 @@ func init() {
 			vsched.Recv(w.Served)
 			vsched.AwaitQuiescence()
 			shutdown(w)
+			vsched.Recv(sdone)
+			vsched.AwaitQuiescence()
+		}, sp
+	}})
+
+	// S13: restart on a fresh connection after a Shutdown that overlapped a callback emitting an event: the reset,
+	// the events and the replies of the second epoch must go out on the new connection.
+	reg(&Scenario{Name: "S13", Make: func(cfg Cfg) (func(), *Spec) {
+		sp := &Spec{Shutdown: true, Closes: 1, Late: []string{"W3"}, LateReply: []string{"R8"}}
+		return func() {
+			w := NewWorld(cfg)
+			sp.Conn2Want = []string{"system.reset", "event." + w.A("1") + ".change", "R8"}
+			sdone := make(chan struct{}, 2)
+			w.StartServe(sdone)
+			started := make(chan struct{}, 1)
+			vsched.Emit(Mon, "submit W1")
+			w.S.With(w.A("1"), func(r res.Resource) {
+				vsched.Emit(Mon, "enter W1 g="+r.Group()+" want="+w.RefGroup(r.ResourceName()))
+				vsched.Send(started, struct{}{})
+				vsched.Yield()
+				Guard("ChangeEvent", func() { r.ChangeEvent(map[string]interface{}{"v": 3}) })
+				vsched.Emit(Mon, "exit W1")
+			})
+			vsched.Recv(started)
+			shutdown(w)
+			vsched.Recv(sdone)
+			vsched.Emit(Mon, "epoch2")
+			c2 := envnats.New()
+			c2.KeepPubs = true
+			w.C = c2
+			w.StartServe(sdone)
+			vsched.Note(Mon, "submit W3")
+			w.S.With(w.A("1"), func(r res.Resource) {
+				vsched.Emit(Mon, "enter W3 g="+r.Group()+" want="+w.RefGroup(r.ResourceName()))
+				Guard("ChangeEvent", func() { r.ChangeEvent(map[string]interface{}{"v": 4}) })
+				vsched.Emit(Mon, "exit W3")
+			})
+			vsched.Note(Mon, "ret W3 ok")
+			w.Req("get."+w.A("1"), "R8")
+			vsched.AwaitQuiescence()
+			var subj []string
+			for _, m := range c2.Pubs {
+				subj = append(subj, m.Subject)
+			}
+			vsched.Emit(Mon, "conn2 "+strings.Join(subj, " "))
+			shutdown(w)
+			vsched.Recv(sdone)
+			vsched.AwaitQuiescence()
+		}, sp
+	}})
+
+	// S13b: as S13 on one connection, but the second Serve is called as soon as Shutdown has returned, without
+	// waiting for the first Serve call to return.
+	reg(&Scenario{Name: "S13b", Make: func(cfg Cfg) (func(), *Spec) {
+		sp := &Spec{Shutdown: true, Closes: 1, Late: []string{"W3"}}
+		return func() {
+			w := NewWorld(cfg)
+			sdone := make(chan struct{}, 2)
+			w.StartServe(sdone)
+			started := make(chan struct{}, 1)
+			vsched.Emit(Mon, "submit W1")
+			w.S.With(w.A("1"), func(r res.Resource) {
+				vsched.Emit(Mon, "enter W1 g="+r.Group()+" want="+w.RefGroup(r.ResourceName()))
+				vsched.Send(started, struct{}{})
+				vsched.Yield()
+				if p := w.scratch[r.Group()]; p != nil {
+					*p++
+				}
+				vsched.Emit(Mon, "exit W1")
+			})
+			vsched.Recv(started)
+			shutdown(w)
+			vsched.Emit(Mon, "epoch2")
+			w.StartServe(sdone)
+			w.With("W3", w.A("1"))
+			vsched.AwaitQuiescence()
+			shutdown(w)
+			vsched.Recv(sdone)
 			vsched.Recv(sdone)
 			vsched.AwaitQuiescence()
 		}, sp
